@@ -19,11 +19,81 @@ PROP = "C05"
 MODES = ["plain", "spare", "shared", "slices"]
 
 
+STREAM_PROGS = [
+    # (command line, query of the command, the same function of the document for the library / the specification)
+    (["--stream", "-n", "-c"], "[inputs]", "[tostream]"),
+    (["--stream", "--slurp", "-c"], ".", "[tostream]"),
+    (["--stream", "-c"], ". as $d | [$d, (try input catch \"none\"), $d]", "[tostream] as $e | range(0; $e | length; 2) as $i | [$e[$i], (if $i + 1 < ($e | length) then $e[$i + 1] else \"none\" end), $e[$i]]"),
+    (["--stream", "-n", "-c"], "reduce inputs as $e ([]; . + [$e]) | ., length", "[tostream] | ., length"),
+    (["--stream", "-n", "-c"], "[inputs] | fromstream(.[])", "."),
+    (["--stream", "-n", "-c"], "[inputs | .[0]]", "[tostream | .[0]]"),
+    (["--stream", "-n", "-c"], "input as $a | [inputs] | [$a] + .", "[tostream]"),
+    (["--stream", "-c"], "[., (try input catch \"none\")] | .[0]", "[tostream] as $e | range(0; $e | length; 2) as $i | $e[$i]"),
+    (["--stream", "-n", "-c"], "[limit(3; inputs)] as $h | [inputs] as $t | $h, $t", "[tostream] | .[:3], .[3:]"),
+    (["--stream", "-n", "-c"], "[inputs | select(length == 1)]", "[tostream | select(length == 1)]"),
+    (["--stream", "-c"], "[., (try input_filename catch null)] | .[0]", "tostream"),
+]
+
+
+def stream_block(rep, work, vh, gojq, r, quick, only=None):
+    """The events of --stream handed to a query are inputs and emitted values like any other: an event keeps its value while later events
+    are read (`input`, `inputs`, --slurp).  Every command is compared, by TLC against JqSem.tla, with the same function of the document
+    (tostream) - the command's output takes the place of the recorded library output in the trace record."""
+    import subprocess
+    prelude = evalfam.make_prelude(work, vh)
+    docs = [[[1], [2]], [[1, [2, 3]], {"a": [4, {"b": []}]}], {"a": [1, 2], "b": {"c": [[3]], "d": {}}}, [[[[1]]], [[2]], [3]], [], {}, 5, [1, 2, 3], {"a": {"b": {"c": 1}}, "d": [[], [[]]]}, [[], [1], [1, 2], [1, 2, 3]],
+            [{"k": [1, [2, [3, [4]]]]}, [[5]]], "s", [None, [False, [True]]]] + ([] if quick else [jqgen.rand_value(r, 4) for _ in range(300)])
+    if only:
+        docs, progs = [only["doc"]], [tuple(only["prog"])]
+    else:
+        progs = STREAM_PROGS
+    scases, meta = [], []
+    for d in docs:
+        for args, q, lq in progs:
+            p = subprocess.run([gojq] + list(args) + [q], input=json.dumps(d), capture_output=True, text=True, timeout=60)
+            try:
+                outs = [jqgen.V(json.loads(line)) for line in p.stdout.splitlines()] if p.returncode == 0 else None
+            except Exception:
+                outs = None
+            scases.append({"id": len(scases), "src": lq, "inputs": [jqgen.V(d)]})
+            meta.append((d, args, q, lq, outs, p))
+    srecs = evalfam.replay(work, vh, scases, tag="streamlib")
+    recs2, kept = [], []
+    for srec, m in zip(srecs, meta):
+        d, args, q, lq, outs, p = m
+        rep.count("evaluations")
+        if outs is None:
+            rep.violation("gojq %s %r on %s: exit status %d, stderr %r" % (" ".join(args), q, json.dumps(d), p.returncode, p.stderr[:300]),
+                          {"family": "stream", "case": {"doc": d, "prog": [args, q, lq]}, "actual": {"status": p.returncode, "stdout": p.stdout[:2000], "stderr": p.stderr[:600]}})
+            continue
+        if "runs" not in srec or srec["runs"][0].get("err") or srec["runs"][0].get("long"):
+            rep.count("out_of_model")
+            continue
+        run0 = {k: v for k, v in srec["runs"][0].items() if k not in ("err", "panic", "long")}
+        recs2.append(dict(srec, runs=[dict(run0, out=outs)]))
+        kept.append(m)
+    verdicts, stats = vc.validate_sharded(work, recs2, "ValidateEval.tla", "ValidateEval.cfg", {"VERIF_PRELUDE": prelude}, tag="stream", timeout=900, per_shard_min=40)
+    rep.add_tlc(stats)
+    n = 0
+    for (d, args, q, lq, outs, p), v in zip(kept, verdicts):
+        if "tlc" in v or v["runs"][0]["v"] in ("oom", "long"):
+            rep.count("out_of_model")
+        elif v["runs"][0]["v"] == "agree":
+            n += 1
+            rep.count("traces_validated_against_impl")
+            rep.nontrivial(["stream", q, d])
+        else:
+            exp = [jqgen.unV(e) for e in v["runs"][0]["exp"]["o"]]
+            rep.violation("gojq %s %r on %s prints %s; the events of the document (%s) are %s" % (" ".join(args), q, json.dumps(d), p.stdout[:400].replace("\n", " "), lq, json.dumps(exp)[:400]),
+                          {"family": "stream", "case": {"doc": d, "prog": [args, q, lq]}, "actual": p.stdout[:4000], "expected": exp})
+    rep.cov["stream_commands_agreeing"] = n
+
+
 def run(tier, seed, replay):
     rep = vc.Report(PROP, tier, seed)
     rep.assumptions += ["values are compared through digests of their canonical encoding (structure and numbers as mathematical values)",
                         "queries using now / input / local time are not generated"]
-    vh, _ = vc.build()
+    vh, gojq = vc.build()
     work = vc.Work(PROP)
     try:
         r = random.Random(seed)
@@ -32,7 +102,7 @@ def run(tier, seed, replay):
                                      {"a": 1, "b": 2}, [[0, 1], {"a": [2]}, 3], [], {}, [0, [1, [2, [3]]]])]
         if replay:
             c = json.load(open(replay))["case"]
-            cases = [dict(c, id=0)]
+            cases = [dict(c, id=0)] if "src" in c else []
         else:
             cases = []
             # mutable scalars (*big.Int is the only one), objects merged into leading empty objects, state kept in the compiled code (regexp cache)
@@ -136,6 +206,8 @@ def run(tier, seed, replay):
                 rep.violation("%s violated at event %d (%s, run %s) of the history of %r on %s (input mode %s)" % (
                     v["inv"], v["at"], ev.get("e"), ev.get("run"), c["src"], evalfam.show(c["input"]), c["mode"]),
                     {"family": "isolate", "case": c, "actual": {"invariant": v["inv"], "event": ev, "init": rec["events"][0]}})
+        if not replay or json.load(open(replay)).get("family") == "stream":
+            stream_block(rep, work, vh, gojq, r, quick, json.load(open(replay))["case"] if replay else None)
         rep.cov["rule"] = ("programs of the update/delete/add/sort/slice grammar (jqgen.c05_program), random and corpus programs x inputs built in 4 aliasing modes x histories of 5 runs; "
                            "non-trivial = a history in which something was emitted; distinct by (source, input, mode)")
         return rep.finish()
